@@ -225,4 +225,13 @@ theorem to_string_protocol (F : Fmts) (g : Parser) (ha : Alloc g) (hmd : g.maxDe
     rw [hnf]; simp only [Bool.not_false, if_true]
     exact ⟨trivial, ht.1, ht.2.2.1 hlt⟩
 
+
+/-- "it returns false for invalid documents": whatever the bytes and the parser state, when verify
+    rejects, `binson_parser_to_string` returns false (and by `to_string_api` still stores nothing at or
+    beyond the capacity) -/
+theorem to_string_invalid (F : Fmts) (p : Parser) (mem : Option (Array UInt8)) (size : Nat)
+    (hv : (verify p).2.1 = false) : (toString' F p mem size).2.1 = false := by
+  unfold toString'
+  simp [hv]
+
 end Binson
